@@ -267,19 +267,24 @@ class Check:
         if self.tie_broken:
             self.violations.append({"kind": "tie-broken", "what": self.tie_broken,
                                     "replay": {"translator": self.tie_broken}, "concrete": False})
-        if undis and not any(v["concrete"] for v in self.violations):
+        if undis:
             self.violations.append({"kind": "proof-obligation", "what": "obligations not discharged: %s" % ", ".join(undis[:8]),
                                     "replay": {"undischarged": {t: self.failed_obligations.get(t, "?") for t in undis}},
                                     "concrete": False})
         # a broken proof/correspondence for which the search found a concrete failing input is reported through that
         # input; the broken obligation/stream is named inside the same replay file
-        conc = [v for v in self.violations if v["concrete"]]
+        known = load_known()
+
+        def is_known(v):
+            key = v.get("replay", {}).get("finding_key")
+            return any(k.get("property") == self.pid and k.get("status") == "open" and key and k.get("key") == key for k in known)
+        # (a listed open finding never absorbs anything: a broken obligation next to it is still a violation)
+        conc = [v for v in self.violations if v["concrete"] and not is_known(v)]
         if conc:
             rest = [v for v in self.violations if not v["concrete"]]
             for v in conc:
                 v["replay"]["broken_obligations_or_streams"] = [{"kind": r["kind"], "what": r["what"]} for r in rest]
-            self.violations = conc
-        known = load_known()
+            self.violations = conc + [v for v in self.violations if v["concrete"] and is_known(v)]
         lines = []
         n_viol = 0
         for v in self.violations:
